@@ -144,6 +144,20 @@ class Evaluator:
             if v is not NotImplemented:
                 return v
         name = norm(e.func)
+        if name in ('all', 'any') and len(e.args) == 1 and isinstance(e.args[0], (ast.GeneratorExp, ast.ListComp)) \
+                and len(e.args[0].generators) == 1 and isinstance(e.args[0].generators[0].target, ast.Name):
+            g = e.args[0].generators[0]
+            it = self.ev(g.iter)
+            if not isinstance(it, (list, tuple, set, frozenset, str, dict, range)):
+                raise AnalysisError(f"iteration outside the abstract domain: {norm(g.iter)}")
+            saved = dict(self.env)
+            vals = []
+            for v in it:
+                self.env[g.target.id] = v
+                if all(self.ev(c) for c in g.ifs):
+                    vals.append(bool(self.ev(e.args[0].elt)))
+            self.env = saved
+            return all(vals) if name == 'all' else any(vals)
         if isinstance(e.func, ast.Attribute) and e.func.attr == 'bit_length' and not e.args and self.arith:
             return int(self.ev(e.func.value)).bit_length()
         if name == 'isinstance' and len(e.args) == 2:
